@@ -295,4 +295,24 @@ def storeProbe (c : Client) (gid seq : Nat) : Client :=
       | none => { c with store := s1 }
       | some s2 => { c with store := s2 }
 
+/-! ### histories: invitation operations interleaved with group traffic -/
+
+/-- everything the `invite` engine lets happen to the recipient: an invitation operation, the delivery of a
+    commit of some group (any content: renames, removals, ROTATIONS of the nostr group id), the storing of a
+    decrypted application message -/
+inductive TOp where
+  | inv (o : Op)
+  | commit (k : Commit)
+  | probe (gid seq : Nat)
+  deriving Repr
+
+def tapply (c : Client) : TOp → Client
+  | .inv o => (apply c o).1
+  | .commit k => (deliverCommit c k).1
+  | .probe gid seq => storeProbe c gid seq
+
+def trun (c : Client) : List TOp → Client
+  | [] => c
+  | o :: os => trun (tapply c o) os
+
 end MdkVerif.Welcome
